@@ -8,8 +8,11 @@
                          (add_match and remove_match are atomic: they hold the subscriptions mutex across the bus call) /
                          the executor runs some queued removal;  reachable = init step*: EVERY interleaving of ANY number
                          of concurrent calls and queued removals
-   plain_op              every API operation except MessageStream::clone and request_name (the two known classes)
-   live c r              number of subscriptions to r held by live objects (streams, signal streams, proxies)
+   plain_op              every API operation except request_name (the known class); MessageStream::clone is included
+                         since fix 3c4a83a4 (clones share one subscription, given back by the last of them)
+   held c                the live subscriptions, each with the objects sharing it (a stream and its clones; never empty:
+                         C37_held_nonempty)
+   live c r              number of live subscriptions to r (streams with their clones, signal streams, proxies)
    bus_has es r          after the events es, is r registered with the bus (last event about r is an AddMatch)
    trace_ok es           every event is about a signal rule, every AddMatch(r) arrives when r is not registered and
                          every RemoveMatch(r) when it is
@@ -41,12 +44,21 @@ Theorem C37_full_statement_refuted : ~ C37_full_statement.
 Proof. exact full_refuted. Qed.
 Print Assumptions C37_full_statement_refuted.
 
-(* a cloned MessageStream is not counted: dropping the clone sends RemoveMatch while the original is alive *)
-Theorem C37_clone_uncounted_refuted :
-  exists c, reachable any_op c /\ quiescent c /\ evs c = [EAdd r_sig; ERem r_sig] /\ live c r_sig = 1 /\
-            bus_has (evs c) r_sig = false /\ is_sig r_sig = true.
-Proof. exact clone_refuted. Qed.
-Print Assumptions C37_clone_uncounted_refuted.
+(* clones (repaired by 3c4a83a4; this run was the witness of the former class clone_uncounted): a stream is cloned and
+   the clone dropped - nothing is removed, the original keeps its registration; only when the original goes too is the
+   rule removed *)
+Theorem C37_clone_repaired_example :
+  (exists c, run_choices plain_op w_clone init = Some c /\ quiescent c /\ evs c = [EAdd r_sig] /\ live c r_sig = 1 /\
+             held c = [([1%N], r_sig)] /\ bus_has (evs c) r_sig = true) /\
+  (exists c, run_choices plain_op (w_clone ++ w_clone_end) init = Some c /\ quiescent c /\
+             evs c = [EAdd r_sig; ERem r_sig] /\ held c = []).
+Proof. exact clone_repaired. Qed.
+Print Assumptions C37_clone_repaired_example.
+
+(* every live subscription is shared by at least one live object: full strength *)
+Theorem C37_held_nonempty : forall allowed c, reachable allowed c -> Forall (fun x => fst x <> []) (held c).
+Proof. exact held_nonempty. Qed.
+Print Assumptions C37_held_nonempty.
 
 (* the NameAcquired/NameLost rules added by request_name are never removed *)
 Theorem C37_name_rules_leak_refuted :
@@ -54,7 +66,7 @@ Theorem C37_name_rules_leak_refuted :
 Proof. exact leak_refuted. Qed.
 Print Assumptions C37_name_rules_leak_refuted.
 
-(* ---- outside the two classes: the refcount of a rule = live holders + queued removals + futures between the
+(* ---- outside the class (no request_name): the refcount of a rule = live holders + queued removals + futures between the
         add_match and the OnceLock::set of subscribe_dest_owner_change, under every interleaving *)
 Theorem C37_refcount_partial : forall c,
   reachable plain_op c -> forall r, subs c r = live c r + count_rule r (pend c) + owed r (thr c).
@@ -99,7 +111,7 @@ Print Assumptions C37_scheduler_sound.
         the call every signal rule in use is registered and every registered rule is in use or was held by an object
         dropped since the last idle point) accepts EVERY sequential run of the model ([run_items]: one API call at a
         time - single calls, ticks, run-until-idle - with the queued removals interleaving in any way) over a history
-        outside the two classes.  So the oracle demands nothing the theorems above do not give. *)
+        outside the class.  So the oracle demands nothing the theorems above do not give. *)
 Theorem C37_oracle_sound_partial : forall run c',
   forallb (fun x => plain_item (fst x)) run = true -> run_items init run c' -> spec_ok ost0 run = true.
 Proof. exact oracle_sound_init. Qed.
